@@ -621,3 +621,23 @@ package redis
 //@   prop C14 C19
 //@   nocall MakeRequest
 //@   nocall Send
+
+// ---- C09: completion latches of the redis processor ----------------------------------------------
+
+//@ func (*session).Serve
+//@   prop C09
+//@   requires s != nil && s.done != nil && !closed(s.done)
+//@   modifies all
+//@   ensures @done-closed-on-every-return closed(s.done)
+
+//@ func (*client).Start
+//@   prop C09 C02
+//@   requires c != nil && c.done != nil && !closed(c.done)
+//@   modifies all
+//@   ensures @done-closed-on-every-return closed(c.done)
+
+//@ func (*upstream).Serve
+//@   prop C09
+//@   requires u != nil && u.done != nil && !closed(u.done)
+//@   modifies all
+//@   ensures @done-closed-on-every-return closed(u.done)
